@@ -188,9 +188,14 @@ def relative_root_chdir(a):
         try:
             os.chdir(base / "a")
             d = Dataset(Path(rel))
+            # iterators started before the working directory changes (shard files are opened lazily, one by one)
+            lazy = {"sync": iter(d.as_numpy_iterator(split="train", repeat=False, shuffle=0)),
+                    "concurrent": iter(d.as_numpy_iterator_concurrent(split="train", repeat=False, shuffle=0, file_parallelism=1))}
+            firsts = {k: sp.ident(next(it)) for k, it in lazy.items()}
             os.chdir(base / "b")
             del opened[:]
             try:
+                r["lazy"] = {k: sorted([firsts[k]] + [sp.ident(e) for e in it]) for k, it in lazy.items()}
                 r["ids"] = sorted(sp.read_ids(d, "train"))
                 d.check(show_progressbar=False); r["check"] = "ok"
             except Exception as e:  # noqa: BLE001
@@ -241,9 +246,9 @@ def run(ctx):
                "worker_$C17_MIX", "${C17_UP}", "$C17_ABS", "~/sub", "~", "%C17_UP%"]
     args = [{"base": str(ctx.scratch / f"c17_{fmt}"), "fmt": fmt, "tampers": tampers, "actions": actions, "subdirs": subdirs} for fmt in (["fb"] if not ctx.thorough else ["fb", "npz", "tfrec"])]
     for r in child.call("harness.checks.c17", "relative_root_chdir", {"base": str(ctx.scratch / "c17_rel"), "fmt": ["fb", "npz"][ctx.seed % 2]}, timeout=600):
-        if r.get("outside") or r.get("ids") != list(range(7)):
+        if r.get("outside") or r.get("ids") != list(range(7)) or any(v != list(range(7)) for v in r.get("lazy", {"-": None}).values()):
             ctx.report({"kind": "reads-outside", "field": "root", "relative": r["rel"]},
-                       f"a dataset opened as {r['rel']!r} (relative) and used after the working directory changed read {r.get('ids')} ({r.get('error', '')}); files opened outside its root: {r.get('outside')}",
+                       f"a dataset opened as {r['rel']!r} (relative) and used after the working directory changed read {r.get('ids')} (iterators started before the change: {r.get('lazy')}) ({r.get('error', '')}); files opened outside its root: {r.get('outside')}",
                        {"case": r})
     hres = child.call("harness.checks.c17", "hostile_cases", args, timeout=1800)
     nh = 0
